@@ -510,6 +510,15 @@ func (r *Run) ReturnShape(rule, fnRef string, k int, cases ...ShapeCase) {
 		} else {
 			alts = append(alts, alt{ff.Term(ret.Results[k]), base(b)})
 		}
+		// "return helper(args)": the value is the helper's success value, under what the helper established
+		if last := len(ret.Results) - 1; last > k && isErrorType(ret.Results[last].Type()) {
+			if call := ff.callTerm(ret.Results[last]); call != "" {
+				extra := append([]string{"ok(" + call + ")"}, ff.importHelperFacts(ret.Results[last])...)
+				for i := range alts {
+					alts[i].facts = append(alts[i].facts, extra...)
+				}
+			}
+		}
 		for _, a := range alts {
 			m := -1
 			for ci, c := range cases {
@@ -559,6 +568,43 @@ func (r *Run) RejectsAre(rule, fnRef string, min int, pats ...string) {
 		for _, p := range pats {
 			if glob(p, ex.Desc) {
 				ok = true
+			}
+		}
+		if !ok && ex.Ret != nil {
+			// the error of a single-use helper: all of the helper's own error returns must be of the class
+			for _, res := range ex.Ret.Results {
+				var c *ssa.Call
+				switch x := res.(type) {
+				case *ssa.Call:
+					c = x
+				case *ssa.Extract:
+					c, _ = x.Tuple.(*ssa.Call)
+				}
+				if c == nil {
+					continue
+				}
+				if h := c.Call.StaticCallee(); h != nil && r.P.singleUse(h) {
+					hf := r.P.Facts(h)
+					all, any := true, false
+					for _, hx := range hf.Exits() {
+						if hx.Kind == ExitSuccess || hx.Kind == ExitPanic {
+							continue
+						}
+						any = true
+						m := false
+						for _, p := range pats {
+							if glob(p, hx.Desc) {
+								m = true
+							}
+						}
+						if !m {
+							all = false
+						}
+					}
+					if any && all {
+						ok = true
+					}
+				}
 			}
 		}
 		r.Check(rule, fnRef+": error return "+trunc(ex.Desc, 90), r.P.Pos(ex.Pos), ok, fmt.Sprintf("returned error is not of the required class %v", pats))
@@ -619,6 +665,27 @@ func (r *Run) RequireFollows(rule, fnRef, first, then, argPrefix, name string, a
 	for _, cs := range r.CallSites(fn, then) {
 		if argPrefix == "" || strings.HasPrefix(r.argTerm(cs, 0), argPrefix) {
 			targets = append(targets, cs.Block())
+		}
+	}
+	// the step may be performed inside a single-use helper called from fn
+	for _, b := range fn.Blocks {
+		for _, in := range b.Instrs {
+			ci, ok := in.(ssa.CallInstruction)
+			if !ok {
+				continue
+			}
+			h := ci.Common().StaticCallee()
+			if h == nil || !r.P.singleUse(h) {
+				continue
+			}
+			for _, hs := range r.CallSites(h, then) {
+				if argPrefix == "" || strings.HasPrefix(r.P.Facts(h).Term(hs.Common().Args[0]), argPrefix) || len(hs.Common().Args) > 1 && strings.HasPrefix(r.P.Facts(h).Term(hs.Common().Args[1]), argPrefix) {
+					// the helper must reach that call on all of its own exits
+					if okAll, _ := mustExecOnAllExits(h, func(i ssa.Instruction) bool { return i == hs.(ssa.Instruction) }); okAll {
+						targets = append(targets, b)
+					}
+				}
+			}
 		}
 	}
 	firsts := r.CallSites(fn, first)
@@ -886,14 +953,34 @@ func (r *Run) RequireCallOrder(rule, fnRef, name string, callees ...string) {
 	if fn == nil {
 		return
 	}
+	matches := func(n, c string) bool {
+		return n == c || (strings.HasSuffix(c, "*") && strings.HasPrefix(n, strings.TrimSuffix(c, "*")))
+	}
+	var callsIn func(h *ssa.Function, c string, d int) bool
+	callsIn = func(h *ssa.Function, c string, d int) bool {
+		for _, b := range h.Blocks {
+			for _, in := range b.Instrs {
+				if ci, ok := in.(*ssa.Call); ok {
+					if matches(calleeName(ci.Common()), c) {
+						return true
+					}
+					if hh := ci.Call.StaticCallee(); hh != nil && d < 2 && r.P.singleUse(hh) && callsIn(hh, c, d+1) {
+						return true
+					}
+				}
+			}
+		}
+		return false
+	}
 	find := func(c string) []ssa.CallInstruction {
 		var out []ssa.CallInstruction
 		for _, b := range fn.Blocks {
 			for _, in := range b.Instrs {
 				if ci, ok := in.(*ssa.Call); ok {
-					n := calleeName(ci.Common())
-					if n == c || (strings.HasSuffix(c, "*") && strings.HasPrefix(n, strings.TrimSuffix(c, "*"))) {
+					if matches(calleeName(ci.Common()), c) {
 						out = append(out, ci)
+					} else if h := ci.Call.StaticCallee(); h != nil && r.P.singleUse(h) && callsIn(h, c, 0) {
+						out = append(out, ci) // the step happens inside a single-use helper called here
 					}
 				}
 			}
